@@ -216,7 +216,7 @@ def concrete_playback(src, target, harness, timeout_s, mem_gb, logf, want=None):
     """Ask Kani for the concrete assignment of a failing harness; returns generated test source."""
     cmd = ["cargo", "kani", "--target-dir", target, "-Z", "stubbing", "-Z", "unstable-options",
            "-Z", "concrete-playback", "--concrete-playback=print", "--harness-timeout", f"{timeout_s}s",
-           "--harness", harness, "--exact"] + CBMC_ARGS
+           "--no-assertion-reach-checks", "--harness", harness, "--exact"] + CBMC_ARGS
     import threading
     with open(logf, "w") as lf:
         p = subprocess.Popen(cmd, cwd=src, env=env_offline(), stdout=lf, stderr=subprocess.STDOUT, preexec_fn=limit_mem(mem_gb))
@@ -457,7 +457,7 @@ def replay_violation(prop, h, vs, src, target, scratch, hobj):
     path = os.path.join(rdir, short + ".json")
     info = {"property": prop, "harness": h, "failed_checks": vs, "how_to_replay": f"./check {prop} --replay {path}"}
     try:
-        test_src = concrete_playback(src, target, h, hobj.timeout * 4, 24, os.path.join(scratch, f"cp_{short}.log"),
+        test_src = concrete_playback(src, target, h, hobj.timeout * 4, 48, os.path.join(scratch, f"cp_{short}.log"),
                                      want=[y["description"][:60] for y in vs])
     except Exception as e:
         test_src = None
